@@ -54,6 +54,7 @@ def run(ctx):
     # order of Label::cmp / name_cmp -- the case folding of that order is part of this property as well
     import c04
     c04.rule_fold(ctx, F)
+    rule_split(ctx, F)
 
 
 def _body(F, rx):
@@ -137,6 +138,13 @@ def rule_types(ctx, F):
             par = which(NSEC3PARAM)
             ctx.ob(R, b, "%s: NSEC3PARAM at the apex" % nm, bool(par) and all(_eq_zero_fact(b, x, F) for x in par),
                    "NSEC3PARAM must be added to the apex bitmap (and only there: distance to apex == 0)")
+            # ... at every apex: the zone owns an NSEC3PARAM RRset whenever it has an NSEC3 chain, whatever else is configured
+            for x in par:
+                extra = [show(deep_strip(tt))[:70] for tt, vv, e in facts_at(b, x, F)
+                         if "config" in show(deep_strip(tt)) or "assume" in show(deep_strip(tt))]
+                ctx.ob(R, b, "%s: NSEC3PARAM at the apex under no further condition" % nm, not extra,
+                       "generate_nsec3s adds NSEC3PARAM to the apex bitmap only if also %s: with that option off the chain proves "
+                       "the zone's own NSEC3PARAM RRset absent" % extra[:2], b.where(x))
         # the NS/DS filter on the owner's own types
         own = [(bb, v) for bb, cv, v in adds if cv is None and any(s[0] == "call" and re.search(r"Rrset::<.*>::rtype$", s[1] or "") for s in walk(v))]
         ctx.anchor(R, "%s: add(rrset.rtype())" % nm, len(own) >= 1, b.where())
@@ -656,3 +664,80 @@ def rule_group(ctx, F):
                    "groups -- two NSECs for one name, a DS taken for a record below the cut"
                    % (re.sub(r"<.*", "", p.lstrip("<")).split("::")[-1] + "::next", k), b.where(bb))
     ctx.ob(R, "dnssec::sign::records", "grouping iterators found", n >= 2, "only %d owner comparisons found in the grouping iterators" % n, nontrivial=False)
+
+
+def _src_bits(t, depth=0):
+    """which bits of the 16-bit type number can reach the value (a mask), for expressions of shifts / masks / casts over
+    Rtype::to_int(); None if the shape is unknown"""
+    t = deep_strip(t)
+    if depth > 12:
+        return None
+    if t[0] == "call" and (t[1] or "").endswith("Rtype::to_int"):
+        return 0xFFFF
+    if t[0] == "cast":
+        inner = _src_bits(t[2], depth + 1)
+        if inner is None:
+            return None
+        m = re.match(r"^u(8|16|32|64|size)$", str(t[3]))
+        w = 64 if not m or m.group(1) == "size" else int(m.group(1))
+        return inner if w >= 16 else ("mask", inner, (1 << w) - 1)
+    if t[0] == "bin":
+        op = t[1].replace("Unchecked", "")
+        k = const_value(deep_strip(t[3]))
+        a = _src_bits(t[2], depth + 1)
+        if a is None or k is None:
+            return None
+        if op == "BitAnd":
+            return ("mask", a, k)
+        if op == "Shr":
+            return ("shr", a, k)
+    return None
+
+
+def _eval_src(bits, width):
+    """source-bit mask that survives: evaluate the little mask/shift program on a 16-bit all-ones source, tracking which
+    source bits land in the low `width` result bits"""
+    # represent the value as a list of source bit indices per result bit
+    def go(x):
+        if isinstance(x, int):
+            return [i if (x >> i) & 1 else None for i in range(16)]
+        kind, a, k = x
+        v = go(a)
+        if kind == "mask":
+            return [v[i] if (k >> i) & 1 else None for i in range(16)]
+        if kind == "shr":
+            return (v[k:] + [None] * k)[:16]
+        return v
+    v = go(bits)
+    return {i for i in v[:width] if i is not None}
+
+
+def rule_split(ctx, F):
+    """The type bitmap of NSEC / NSEC3 files type T under window T >> 8, octet (T & 0xFF) >> 3, bit 0x80 >> (T & 7)
+    (RFC 4034 4.1.2).  split_rtype, which both the builder and `contains` use, lets exactly bits 15..8 of the type into
+    the window number, bits 7..3 into the octet index and bits 2..0 into the bit mask -- a narrower mask files the types
+    above it in another type's place, and since writer and reader share the helper only a foreign implementation sees it."""
+    R = "C13.split"
+    ctx.floor(R, 3)
+    b = F.one_body(r"^rdata::dnssec::split_rtype$")
+    if not ctx.anchor(R, "rdata::dnssec::split_rtype", b):
+        return
+    rets = [deep_strip(t) for _, _, _, t in return_assignments(b) if t is not None]
+    tup = next((t for t in rets if t[0] == "agg" and t[1][0] == "tuple" and len(t[2]) == 3), None)
+    if not ctx.anchor(R, "the (window, octet, mask) tuple of split_rtype", tup is not None, b.where()):
+        return
+    win, octet, mask = [deep_strip(x) for x in tup[2]]
+    bw = _src_bits(win)
+    got_w = _eval_src(bw, 8) if bw is not None else None
+    ctx.ob(R, b, "window number = bits 15..8 of the type", got_w == set(range(8, 16)),
+           "split_rtype builds the window number from bits %s of the type (must be 8..15): types whose window differs only in the "
+           "dropped bit(s) share a window -- e.g. DLV (32769) is filed and looked up as type 1 (A)" % (sorted(got_w) if got_w is not None else "?"))
+    bo = _src_bits(octet)
+    got_o = _eval_src(bo, 16) if bo is not None else None
+    ctx.ob(R, b, "octet index = bits 7..3 of the type", got_o == set(range(3, 8)),
+           "split_rtype builds the octet index from bits %s of the type (must be 3..7)" % (sorted(got_o) if got_o is not None else "?"))
+    okm = mask[0] == "bin" and mask[1].startswith("Shr") and const_value(deep_strip(mask[2])) == 0x80
+    bm = _src_bits(mask[3]) if okm else None
+    got_m = _eval_src(bm, 16) if bm is not None else None
+    ctx.ob(R, b, "bit mask = 0x80 >> bits 2..0 of the type", okm and got_m == {0, 1, 2},
+           "split_rtype's bit mask is not 0x80 >> (type & 7) (shift amount from bits %s)" % (sorted(got_m) if got_m is not None else "?"))
